@@ -121,18 +121,18 @@ EXPECTED = [
          "coefficients=[numpy.asarray(poly.values[v0])], names=poly.indeterminants, retain_coefficients=True, "
          "retain_names=True)[numpy.newaxis] for v0, v1 in zip(poly.keys, poly.exponents)])"),
     ]),
-    ("array_function/argmin.py", "argmin", ["a", "axis", "out"], [
+    ("array_function/argmin.py", "argmin", ["a", "axis", "out", "**kwargs"], [
         ("operand_is_aspolynomial", "a = numpoly.aspolynomial(a)"),
         ("options_read", "v0 = numpoly.get_options()"),
         ("ranks_of_the_array", "v1 = numpoly.sortable_proxy(a, graded=v0['sort_graded'], reverse=v0['sort_reverse'])"),
-        ("numpy_argmin_of_ranks", "return numpy.argmin(v1, axis=axis, out=out)"),
+        ("numpy_argmin_of_ranks", "return numpy.argmin(v1, axis=axis, out=out, **kwargs)"),
     ]),
-    ("array_function/argmax.py", "argmax", ["a", "axis", "out"], [
+    ("array_function/argmax.py", "argmax", ["a", "axis", "out", "**kwargs"], [
         ("operand_is_aspolynomial", "a = numpoly.aspolynomial(a)"),
         ("options_read", "v0 = numpoly.get_options()"),
         ("ranks_of_the_reversed_array_reversed_back",
          "v1 = numpoly.sortable_proxy(a.ravel()[::-1], graded=v0['sort_graded'], reverse=v0['sort_reverse'])[::-1].reshape(a.shape)"),
-        ("numpy_argmax_of_ranks", "return numpy.argmax(v1, axis=axis, out=out)"),
+        ("numpy_argmax_of_ranks", "return numpy.argmax(v1, axis=axis, out=out, **kwargs)"),
     ]),
     ("array_function/amin.py", "amin", ["a", "axis", "out", "**kwargs"], [
         ("out_ignored", "del out"),
